@@ -36,7 +36,7 @@ REQUIRED_ANCHORS = ['quilt.AxisMap.from_bus', 'quilt.Quilt._extract', 'quilt.Qui
 
 _DT = ['int64', 'float64', 'bool', '<U5', 'object']
 _QOBS = ['shape', 'labels', 'values', 'to_frame', 'iloc', 'iloc', 'iloc', 'loc', 'loc', 'getitem', 'iter_array', 'iter_series', 'iter_tuple',
-         'iter_array_items', 'iter_series_items', 'iter_window_items', 'iter_window_array_items', 'head', 'tail', 'items', 'contains', 'iloc_row', 'iloc_col']
+         'iter_array_items', 'iter_series_items', 'iter_window_items', 'iter_window_array_items', 'iter_window', 'iter_window_array', 'head', 'tail', 'items', 'contains', 'iloc_row', 'iloc_col']
 _BOPS_2D = ['iloc', 'loc_cols', 'add', 'mul', 'eq', 'neg', 'apply_head', 'apply_fillna', 'apply_dropna', 'sort_index', 'sort_values', 'transpose',
             'head', 'tail', 'cumsum', 'drop', 'round', 'clip', 'isin', 'shift', 'roll', 'apply_items_head']
 _BOPS_1D = ['getitem', 'sum', 'mean', 'max', 'count', 'loc_min']  # reduce a member to a Series: only as the last operation of a chain
@@ -71,7 +71,7 @@ def generate(ctx):
         members = []
         counter = 0
         for i in range(k):
-            n = rng.randint(1, 4)
+            n = rng.randint(1, 4) if rng.random() < 0.75 else rng.randint(5, 9)  # some long members: selections of several scattered positions inside one member
             own = [f'm{counter + j}' for j in range(n)]
             counter += n
             if axis == 0:
@@ -325,11 +325,19 @@ def _check_quilt(case, ctx, tmp):
                 k2['iter_axis'] = ax
                 kw = {'constructor': tuple} if obs == 'iter_tuple' else {}
                 fq, fr = (lambda: list(getattr(q, obs)(axis=ax, **kw))), (lambda: list(getattr(ref, obs)(axis=ax, **kw)))
-            elif obs in ('iter_window_items', 'iter_window_array_items'):
+            elif obs in ('iter_window_items', 'iter_window_array_items', 'iter_window', 'iter_window_array'):
                 ax = rng.choice([0, 1])
                 size = rng.choice([1, 2, 3])
                 k2['iter_axis'] = ax
-                fq, fr = (lambda: list(getattr(q, obs)(size=size, axis=ax))), (lambda: list(getattr(ref, obs)(size=size, axis=ax)))
+                wkw = {}
+                if rng.random() < 0.5:
+                    # the other window arguments: which windows exist depends on them in the values flavours as in the items flavours
+                    wkw = {'label_shift': rng.choice([0, 0, 1, 2, -1, -2, -3]), 'step': rng.choice([1, 1, 2]), 'start_shift': rng.choice([0, 0, 1]),
+                           'size_increment': rng.choice([0, 0, 1])}
+                    wkw = {k_: v_ for k_, v_ in wkw.items() if rng.random() < 0.6}
+                k2['window_args'] = sorted(wkw)
+                k2['key'] = repr((size, sorted(wkw.items())))
+                fq, fr = (lambda: list(getattr(q, obs)(size=size, axis=ax, **wkw))), (lambda: list(getattr(ref, obs)(size=size, axis=ax, **wkw)))
             elif obs in ('head', 'tail'):
                 c = rng.randint(1, 3)
                 fq, fr = (lambda: getattr(q, obs)(c)), (lambda: getattr(ref, obs)(c))
